@@ -307,6 +307,19 @@ func retypeEntries(r *core.Rng, d *gen.Dir) {
 				out[k] = uint16(x)
 			}
 			en.Val = gen.Short(out...)
+		case gen.TASCII:
+			// a short text written with a numeric type (the same numbers in both byte orders): a
+			// reader may report it or not, but not as a different text per byte order
+			switch len(v.B) {
+			case 2:
+				en.Val = gen.Short(uint16(v.B[0])<<8 | uint16(v.B[1]))
+			case 4:
+				if r.Bool() {
+					en.Val = gen.Short(uint16(v.B[0])<<8|uint16(v.B[1]), uint16(v.B[2])<<8|uint16(v.B[3]))
+				} else {
+					en.Val = gen.Long(uint32(v.B[0])<<24 | uint32(v.B[1])<<16 | uint32(v.B[2])<<8 | uint32(v.B[3]))
+				}
+			}
 		case gen.TRational:
 			en.Val = gen.SRational(v.Rat...)
 		case gen.TSRational:
